@@ -17,9 +17,9 @@ RANK_REL = 1e-10
 
 
 @st.composite
-def svd_cases(draw, tier):
-    hi = 6 if tier == "quick" else 8
-    m, n = draw(st.integers(1, hi)), draw(st.integers(1, hi))
+def svd_cases(draw, tier, size=None):
+    lo, hi = size or (1, 6 if tier == "quick" else 8)
+    m, n = draw(st.integers(lo, hi)), draw(st.integers(lo, hi))
     k = min(m, n)
     src = draw(st.sampled_from(["spectrum", "spectrum", "spectrum", "pattern", "zero"]))
     if src == "spectrum":
@@ -183,6 +183,8 @@ PROPERTY = Property(
     title="Q-SVD: true singular values, unitary factors, exact and optimal reconstruction",
     rule="min(m,n) >= 2 and (a repeated non-zero singular value, or >= 2 zero singular values, or m != n)",
     clauses=[Clause("qsvd", check_svd, strategy=svd_cases, budget={"quick": 1500, "thorough": 20000}),
+             Clause("qsvd_moderate_size", check_svd, strategy=lambda tier: svd_cases(tier, size=(9, 20 if tier == "quick" else 40)),
+                    budget={"quick": 40, "thorough": 400}, shrink=False),
              Clause("qsvd_long_dimension", check_svd, strategy=long_svd_cases, budget={"quick": 32, "thorough": 320},
                     shrink=False)],
     assumptions=[
